@@ -471,6 +471,16 @@ impl Sim {
                 }
                 "unit".into()
             }
+            // the scheduler does not get to the task that awaits this request for a while: its future stays
+            // unpolled (woken or not) until `releasereq`; the connection task and everything else go on
+            ["holdreq", req] => {
+                let slot = self.binds.get(&num(req)).or_else(|| self.opens.get(&num(req))).copied();
+                match slot { Some(i) => { self.exec.slots[i].held = true; "unit".into() } None => "badhandle".into() }
+            }
+            ["releasereq", req] => {
+                let slot = self.binds.get(&num(req)).or_else(|| self.opens.get(&num(req))).copied();
+                match slot { Some(i) => { self.exec.slots[i].held = false; "unit".into() } None => "badhandle".into() }
+            }
             ["sinkblock"] => { self.ws.set_sink_room(Some(0)); "unit".into() }
             ["sinkunblock"] => { self.ws.set_sink_room(None); "unit".into() }
             ["sinkgrant", k] => { self.ws.set_sink_room(Some(num(k) as usize)); "unit".into() }
